@@ -132,7 +132,30 @@ def check(chk):
     chk.judge(incoming <= set(['init', 'fresh']) and 'fresh' in incoming, 'C43.wait', wl, 'every path to the loop test carries elapsed = time() - start (or the initial 0)',
               'a path reaches the loop test without refreshing elapsed (%s): the wait can exceed its budget or never end' % sorted(incoming))
     tm = [n for n in body_walk(wl) if isinstance(n, ast.Assign) and src(n.targets[0]) == 'timeout']
-    chk.judge(len(tm) == 1 and src(tm[0].value) == 'min(self._timeout, total_timeout - elapsed)', 'C43.wait', wl, 'each poll bounded by the remaining budget', 'poll timeout not bounded by the remaining wait')
+    # the poll timeout as a function of the configured control timeout (None = none) and the remaining budget: never above either, never undefined
+    okt, whyt = len(tm) == 1, 'poll timeout assignment not found'
+    if okt:
+        import copy as _copy43
+
+        class _T(ast.NodeTransformer):
+            def visit_Attribute(s_, n_):
+                return ast.Name(id='_ct', ctx=ast.Load()) if src(n_) == 'self._timeout' else n_
+        e_ = _T().visit(_copy43.deepcopy(tm[0].value))
+        whyt = ''
+        for ct in (None, 1.0, 10.0):
+            try:
+                got = folder.eval(e_, env={'_ct': ct, 'total_timeout': 7.0, 'elapsed': 2.0})
+            except Unfoldable as ex_:
+                okt, whyt = False, 'not foldable (%s)' % ex_
+                break
+            except TypeError as ex_:
+                okt, whyt = False, 'control_connection_timeout=%r raises %s' % (ct, ex_)
+                break
+            want = 5.0 if ct is None else min(ct, 5.0)
+            if got != want:
+                okt, whyt = False, 'control_connection_timeout=%r, 5 s left -> %r (want %r)' % (ct, got, want)
+                break
+    chk.judge(okt, 'C43.wait', wl, 'each poll bounded by the control timeout (if any) and by the remaining budget', 'poll timeout not bounded by the remaining wait: %s' % whyt)
     chk.judge('start = self._time.time()' in src(wf), 'C43.wait', wf, 'start taken from the clock before the loop', 'start changed')
     # result
     rs = cl.func('ControlConnection._refresh_schema')
